@@ -765,7 +765,7 @@ def replay(ctx, payload):
         def violation(self, what, c, detail): self.violations.append({"what": what, "case": c, "detail": detail})
     stub = Stub()
     scen = option_scenarios(freq, ds, kw)[case["scenario"]]
-    for attempt in range(8):          # folding positions are random; the other paths are deterministic
+    for attempt in range(30):         # folding positions are random; the other paths are deterministic
         run_option_case(stub, R, freq, ds, kw, case["scenario"], scen, random.Random(attempt))
     failing = [x for x in stub.violations if x["case"]["path"] == case["path"]]
     for x in failing[:1]:
